@@ -329,6 +329,20 @@ class InterpBase:
         if kind == "extern":
             return self.extern_value(b[1])
         if kind == "constexpr":
+            expr = b[1]
+            if isinstance(expr, ast.Call) and isinstance(expr.func, ast.Name):
+                t = self.index.resolve_global(b[2], expr.func.id)
+                if t is not None and t[0] == "class" and getattr(t[1], "cid", None) is not None and \
+                        self.table.info.get(t[1].cid) is not None:
+                    # a module-level object (created once, at import): an already existing object of that class, about
+                    # which the class invariant and the facts declared for it (contract.global_fact) are known
+                    from .contract import OBJ, GLOBAL_FACTS, SpecCtx
+                    v = self.make_param("global_" + name, OBJ(t[1].name))
+                    self.st.globals_store[key] = v
+                    fact = GLOBAL_FACTS.get((mod.name, name))
+                    if fact is not None:
+                        self.ctx.assume(fact(SpecCtx(self, self.top, {}, self.st.snapshot()), v))
+                    return v
             return self.eval_const(b[1], b[2])
         if kind == "constexpr_aug":
             prev, st, m = b[1], b[2], b[3]
